@@ -194,6 +194,7 @@ func runC05(r *Run) {
 	c05ValidationDominates(r, site)
 	c05ReaderCompleteness(r)
 	c05Imports(r, site)
+	c05ListIntegrity(r)
 }
 
 // promotionAtoms classifies the facts of a path of the decision function.
